@@ -56,7 +56,7 @@ pub fn check_note(l0: &Lib, ext: &str, key: &str) -> Option<String> {
         }
     }
     let l0 = &l0;
-    let dir = Key::from_file_name(key).parent();
+    let dir = crate::oracle::md::dir_of(key);
     let text0 = l0.get(key)?.clone();
     let server = act::server(l0, ext, false);
     let nlines = text0.lines().count() as u32;
@@ -92,7 +92,7 @@ pub fn check_note(l0: &Lib, ext: &str, key: &str) -> Option<String> {
                     // conservation: atoms(source') + atoms(new notes) = atoms(source) + one reference per new note
                     let mut after = c10::payloads(l1.get(key).map(|s| s.as_str()).unwrap_or(""), &dir);
                     for k in &created {
-                        let d = Key::from_file_name(k).parent();
+                        let d = crate::oracle::md::dir_of(k);
                         after.extend(c10::payloads(l1.get(*k).map(|s| s.as_str()).unwrap_or(""), &d));
                     }
                     let mut before = c10::payloads(&text0, &dir);
@@ -146,7 +146,7 @@ pub fn check_note(l0: &Lib, ext: &str, key: &str) -> Option<String> {
                     if target == key {
                         continue; // a note inlined into itself is deleted by its own edit: outside the statement
                     }
-                    let tdir = Key::from_file_name(target).parent();
+                    let tdir = crate::oracle::md::dir_of(target);
                     let mut before = c10::payloads(&text0, &dir);
                     let refp = format!("ref→{}", target);
                     if let Some(i) = before.iter().position(|p| p == &refp) {
@@ -237,7 +237,7 @@ pub fn run(ctx: &Ctx, model: &mut Model, rep: &mut Report) {
         let mut lib = c10::gen_note_library(&mut r);
         // references to the other notes, to a missing note, to the note itself, before any heading
         let main = if lib[2].1.len() > lib[0].1.len() { 2 } else { 0 };
-        let dir = Key::from_file_name(&lib[main].0).parent();
+        let dir = crate::oracle::md::dir_of(&lib[main].0);
         let rel = |k: &str| md::rel_url(k, &dir);
         match r.below(7) {
             0 => lib[main].1 = format!("[top]({})\n\n{}", rel("b"), lib[main].1),
@@ -251,7 +251,7 @@ pub fn run(ctx: &Ctx, model: &mut Model, rep: &mut Report) {
                 // a reference to a note in the other directory which itself refers to notes of both directories:
                 // inlining it has to re-write those references relative to the host
                 let (target, near, far) = if main == 0 { (3, "d/x", "b") } else { (1, "a", "d/y") };
-                let tdir = Key::from_file_name(&lib[target].0).parent();
+                let tdir = crate::oracle::md::dir_of(&lib[target].0);
                 let trel = |k: &str| md::rel_url(k, &tdir);
                 let add = format!("\n## refs\n\n[near]({})\n\n[far]({})\n", trel(near), trel(far));
                 lib[target].1.push_str(&add);
